@@ -248,6 +248,7 @@ Inductive event :=
 | User (i : nat) (login : text)
 | UserErr (i : nat)                (* USER whose get_user raises (a custom user manager) *)
 | Pass (i : nat) (pw : text)
+| PassErr (i : nat)                (* PASS whose authenticate raises (a custom user manager) *)
 | Other (i : nat)                  (* any other command *)
 | Quit (i : nat)
 | Drop (i : nat)                   (* peer vanished / EOF / reset *)
@@ -367,6 +368,15 @@ Definition step (cfg : config) (st : state) (e : event) : state * list out :=
                     else (st, [(i, 530)])
                 | None => (st, [(i, 530)])
                 end
+          end
+      | None => (st, [])
+      end
+  | PassErr i =>
+      match live_sess st i with
+      | Some s =>
+          match s_user s with
+          | None => (st, [(i, 503)])
+          | Some _ => if s_logged s then (st, [(i, 503)]) else (end_session cfg i st, [])
           end
       | None => (st, [])
       end
@@ -533,6 +543,7 @@ Definition event_of_sx (s : sx) : event :=
   | 11 => ServerClose
   | 12 => UserBegin i
   | 13 => UserEnd i t
+  | 14 => PassErr i
   | _ => Other i
   end.
 
